@@ -1277,11 +1277,6 @@ class Interp(object):
         if isinstance(base, ModRef):
             if base.name == 'functools' and name == 'partial':
                 return self.make_partial(args, kwargs)
-            if base.name == 'copy' and name == 'deepcopy':
-                return _deepcopy_data(args[0])
-            if base.name == 'copy' and name == 'copy':
-                a = args[0]
-                return dict(a) if isinstance(a, dict) else (list(a) if isinstance(a, list) else a)
             r = self.imported_call('%s.%s' % (base.name, name), args, kwargs, node, frame)
             return r
         if isinstance(base, list):
@@ -1483,6 +1478,8 @@ class Interp(object):
                 t = self.truth(a0)
                 return Top('bool') if t is None else t
             return Top(name)
+        if name == 'sum' and isinstance(a0, (list, tuple)) and len(a0) == 0:
+            return args[1] if len(args) > 1 else kwargs.get('start', 0)
         if name in ('min', 'max', 'sum'):
             vals = a0 if len(args) == 1 else args
             if isinstance(vals, (list, tuple)) and vals and all(isinstance(x, (int, float)) and not isinstance(x, bool) for x in vals):
